@@ -11,6 +11,7 @@ from fractions import Fraction
 from vp_common import *
 import vp_coq, vp_build
 import bounds_cases as bc
+import txt_cases
 
 REPO_DIR = os.path.realpath(REPO)
 
@@ -522,7 +523,8 @@ def malformed_files(ctx, tg, tga, work, env):
             a = base + ["--tracking", p, "--FPTrack", str(ft), "-o", os.path.join(work, "%s-%d.h5" % (name, ft))]
             jobs.append((dict(kind="program", file=name, contents=text, args=a), a, {}))
     for name, text in [("s_empty.txt", ""), ("s_one.txt", "0.1 0.2\n"), ("s_far.txt", "1e9 1e9\n-1e9 3\n"), ("s_junk.txt", "x y z\n"),
-                       ("s_grid.txt", "".join("%r " % (i * 0.01) for i in range(64 * 64)) + "\n"), ("s_nan.txt", "nan nan\n")]:
+                       ("s_grid.txt", "".join("%r " % (i * 0.01) for i in range(64 * 64)) + "\n"), ("s_nan.txt", "nan nan\n"),
+                       ("s_below.txt", "-6.4 0.3\n0.3 -6.4\n-6.1 -6.1\n0 0\n-7 5.9\n"), ("s_left1.txt", "-6.3 0\n")]:
         p = mk(name, text)
         jobs.append((dict(kind="program", file=name, contents=text[:200], args=base + ["-i", p]), base + ["-i", p], {}))
     # start files in HDF5: produced by the program itself at other grid sizes
@@ -618,10 +620,12 @@ def run(ctx):
                 "documented domain (grid sizes, filling patterns, spacings down to touching buckets, padding with/without power-of-two rounding, interpolation/derivation orders, "
                 "FP/tracking variants, RF models and modulation, grid shifts up to 2n, 1..1000 steps per period) and malformed impedance/tracking/start files under ASan+UBSan; "
                 "padded lengths read back from the results file against the model. Non-trivial: multi-bucket / shifted / large-kick configurations, out-of-domain model verdicts, file cases.")
-    coq = vp_coq.full_check("C17", ctx, fams=("bounds",))
+    coq = vp_coq.full_check("C17", ctx, fams=("bounds", "txt"))
     tg = ctx.build(harness=("impl_bounds", "h5cat"), want_binary=True)
-    tga = ctx.build("asan", harness=("impl_bounds",), want_binary=True)
+    tga = ctx.build("asan", harness=("impl_bounds", "impl_txt"), want_binary=True)
     dis = api_correspondence(ctx, tg, tga)
+    # text start distribution: generated reader (Gen_TxtReader) vs makePSFromTXT under the sanitizers
+    dis += txt_cases.run(ctx, tga, classify, 60 if ctx.quick() else 600)
     dis += program_runs(ctx, tg, tga)
     ctx.extra["correspondence_disagreements"] = len(dis)
     ctx.trusted.add("sanitizers (gcc 12 ASan+UBSan float-cast-overflow; note: gcc's ASan does not instrument std::complex loads) and valgrind memcheck: search only")
@@ -658,7 +662,7 @@ def replay(ctx, rp):
     """re-run the recorded case on the current tree under the sanitizers"""
     case = rp.get("case") or {}
     sig = rp.get("sig") or rp.get("match") or {}
-    tga = ctx.build("asan", harness=("impl_bounds",), want_binary=True)
+    tga = ctx.build("asan", harness=("impl_bounds", "impl_txt"), want_binary=True)
     tg = ctx.build(harness=("impl_bounds", "h5cat"), want_binary=True)
     env = bc.san_env()
     pred = PRED.get(sig.get("cause"), {})
@@ -699,6 +703,11 @@ def replay(ctx, rp):
                 if s != exp:
                     ctx.violation("impl-oracle", "Impedance::operator+= reads past the shorter operand", case=case, observed=[str(x) for x in s[:20]],
                                   sig=dict(stage="api", cause="impedance-sum-overread"))
+        elif kind == "txt":
+            c = dict(id="r", n=case["n"], qmax=float.fromhex(case["qmax"]), pmax=float.fromhex(case["pmax"]),
+                     ps=[(float.fromhex(a), float.fromhex(b)) for a, b in case["particles"]])
+            rc, so, err = bc.run_proc([tga["impl_txt"]], text=txt_cases.impl_text(c, work), env=env, timeout=60)
+            classify(ctx, rc, err, pred, case, "replay: makePSFromTXT under ASan/UBSan")
         elif kind == "program-valgrind":
             p = os.path.join(work, case["file"])
             with open(p, "w") as f:
